@@ -209,8 +209,10 @@ func runErrs(ctx *Ctx) {
 		}
 		seen[errClasses[n]] = n
 	}
-	texts := []string{"", "ctx: ", "a:b:c ", "{\"k\":1}", " \x1b", "json", "\x1bjso", "son\x1b", "rpc error: code = NotFound desc = ", "x%dy%w", "üñí", "[1,2]"}
-	jsons := []string{"{\"a\":1}", "\"s:t\"", "[1,\"\\u001b\"]", "{\"json\":\"json\"}", "123"}
+	// texts incl. fmt verbs next to where the embed marker will sit: a message that is ever re-interpreted
+	// as a format string garbles the marker or the JSON
+	texts := []string{"", "ctx: ", "a:b:c ", "{\"k\":1}", " \x1b", "json", "\x1bjso", "son\x1b", "rpc error: code = NotFound desc = ", "x%dy%w", "üñí", "[1,2]", "100%", "%[", "%!", "%%", "a%2Fb%20c "}
+	jsons := []string{"{\"a\":1}", "\"s:t\"", "[1,\"\\u001b\"]", "{\"json\":\"json\"}", "123", "\"disk usage is 100%\"", "\"/bucket/a%2Fb%20c\"", "[1,2,3]", "\"%s%v%[1]d\""}
 	do := func(f string, a ...any) { errsExec(ctx, strings.Fields(fmt.Sprintf(f, a...))) }
 	ctx.R.Case("codes")
 	for _, c := range grpcCodes {
